@@ -312,20 +312,23 @@ def oracle(case, res, hist):
         V.append(v("endmarker-not-requested", key0, "endmarker delivered though none was requested"))
     if ends and items and items[-1][0] > ends[0]:
         V.append(v("item-after-endmarker", key0, f"item {items[-1][1]} after the endmarker"))
-    # (proxied: the sub's own pipes carry the same frames, the forwarder passes the byte stream on unmodified)
-    W = wire_tokens_for(case, res, hist, T, case["dir"])
+    proxied_kill = case["transport"] == "proxy" and case["ending"] == "kill"
+    W = wire_tokens_for(case, res, hist, T, case["dir"]) if case["transport"] != "proxy" else None
     if W is None:
-        # no ground-truth wire order available (proxied): fall back to the program order of the single sender
+        # proxied: what the sub wrote is not what reached the survivor (after the sub's death the forwarder's proxy
+        # channel may be closed by a failing write towards the dead sub while complete frames of the sub are still
+        # waiting to be forwarded).  Program order of the single sender: for a killed sub every invoked send may or
+        # may not have made it, otherwise the acknowledged ones have.
         W = []
         for aid, oi, op, s1, s2, r in hist.ops(("send",)):
-            if aid == case["S"] and op[1] == T and r is not None and r[0] == "ok":
+            if aid == case["S"] and op[1] == T and (proxied_kill or (r is not None and r[0] == "ok")):
                 W.append(op[2])
     rest = [t for t in W if t not in pre_toks]
     if pre_toks != W[:len(pre_toks)]:
         V.append(v("reorder", key0, f"receive() before setcallback got {pre_toks}, wire order {W}"))
     if toks != rest[:len(toks)]:
         V.append(v("reorder", key0, f"callback sequence {toks} is not a prefix of the remaining wire order {rest}"))
-    elif ended and len(toks) < len(rest):
+    elif ended and len(toks) < len(rest) and not proxied_kill:
         V.append(v("lost-item", key0, f"stream ended, callback got {toks}, wire order (after {len(pre_toks)} received) {rest}"))
     if ended and case["want_end"] and len(ends) == 0:
         V.append(v("endmarker-count", f"{key0};n=0", "endmarker requested, never delivered"))
